@@ -243,7 +243,9 @@ class Run:
         with open(path, "w") as f:
             json.dump({"property": self.pid, "tier": self.tier, "seed": self.seed, "rejected_index": idx,
                        "note": note, "recording": block}, f)
-        self.violations.append((path, json.dumps(block[idx])[:400]))
+        ev = block[idx]
+        brief = {k: v for k, v in ev.items() if not isinstance(v, (list, dict))} if isinstance(ev, dict) else ev
+        self.violations.append((path, (json.dumps(brief) + " " + note)[:400]))
 
     def finish(self):
         wall = round(time.time() - self.t0, 2)
